@@ -73,9 +73,10 @@ PROPS.update({
     "C11": dict(pkg="./props/c11_cache", tests=[REGRESS(), T("TestCache", (8, 5000), (16, 80000)), T("TestCacheOverlapping", (4, 1500), (8, 20000))],
         rule=COMPOSE_RULE + "a cache hit that follows a store made by an earlier step of the same history, or a context key that conflicts with a configured key after something was stored, or an error outcome stored through a matching CacheIf. Profile: cache-heavy pools sharing one instrumented cache, stateful policies inside, histories up to 10 steps with direct cache writes/deletes. TestCacheOverlapping: 2..6 executions with generated keys overlap inside one cache policy (parked in the function, completed in a generated order); non-trivial when at least two different keys are involved.",
         assumptions=COMPOSE_ASSUMPTIONS + ["an empty string key in the context is generated only when no cache policy has a configured key (the statement does not say whether an empty context key counts as supplied)"]),
-    "C16": dict(pkg="./props/c16_events", tests=[REGRESS(), T("TestEvents", (8, 6000), (16, 120000)), T("TestEventsConcurrent", (4, 1500), (8, 30000)), T("TestEventsWhenWaitsAreCancelled", (2, 600), (4, 8000)), T("TestBreakerEventPathConcurrent", (4, 300), (8, 6000))],
-        rule=COMPOSE_RULE + "at least 3 distinct listener kinds fired and at least one of {abort, exhaustion, rejection, cache hit, fallback, timeout, nested retries}. Every listener of every builder and of the executor is registered into one recorder. TestEventsConcurrent: 2..12 executions with different scripts share one executor and its listeners; each execution's events (attributed through the context) must equal the model's prediction for its own script. TestEventsWhenWaitsAreCancelled: an execution waiting an hour for a bulkhead permit, a limiter permit or a retry delay is cancelled; rejection / retry / exhaustion listeners must stay silent.",
-        assumptions=COMPOSE_ASSUMPTIONS),
+    "C16": dict(pkg="./props/c16_events", tests=[REGRESS(), T("TestEvents", (8, 6000), (16, 120000)), T("TestEventsConcurrent", (4, 1500), (8, 30000)), T("TestEventsWhenWaitsAreCancelled", (2, 600), (4, 8000)), T("TestBreakerEventPathConcurrent", (4, 300), (8, 6000)), T("TestHedgedRetryEvents", (4, 500), (8, 10000))],
+        prefer_json_tests=["TestHedgedRetryEvents"], replay_reps=300,
+        rule=COMPOSE_RULE + "at least 3 distinct listener kinds fired and at least one of {abort, exhaustion, rejection, cache hit, fallback, timeout, nested retries}. Every listener of every builder and of the executor is registered into one recorder. TestEventsConcurrent: 2..12 executions with different scripts share one executor and its listeners; each execution's events (attributed through the context) must equal the model's prediction for its own script. TestEventsWhenWaitsAreCancelled: an execution waiting an hour for a bulkhead permit, a limiter permit or a retry delay is cancelled; rejection / retry / exhaustion listeners must stay silent. TestHedgedRetryEvents: Hedge(Retry(fn)) with a hedge that only accepts successes, so 2..4 branches of one execution share the retry policy's executor; every invocation parks and the harness lets them return one at a time in a generated order or all at once; OnRetriesExceeded at most once (exactly once with ExceededError), invocations = 1 + OnHedge + OnRetry, OnRetry <= OnRetryScheduled, one completion event; non-trivial when at least two branches were parked together and a retry was decided or the retries were exceeded.",
+        assumptions=COMPOSE_ASSUMPTIONS + ["a result that reaches a retry policy after the same execution has already exhausted it (nested retries, a hedge outside) passes through unclassified: the executor's OnSuccess/OnFailure verdict is not judged against the error for such executions"]),
     "C17": dict(pkg="./props/c17_stats", tests=[REGRESS(), T("TestStats", (8, 6000), (16, 120000)), T("TestHedgedStats", (4, 1000), (8, 15000), pkg="./props/c09_hedge"), T("TestHedgedRetryStats", (2, 1500), (4, 20000), pkg="./props/c09_hedge"), T("TestAttemptViewStable", (2, 400), (4, 6000))],
         rule=COMPOSE_RULE + "at least one retry happened and at least one attempt was rejected before reaching the function (breaker, bulkhead or rate limiter). Observation points: function entry, every listener, fallback functions, completion events. Hedged executions (TestHedgedStats, from the C09 harness) count as non-trivial when at least two attempts overlapped.",
         assumptions=COMPOSE_ASSUMPTIONS + ["LastResult/LastError are not compared at observation points where the execution's context is already done (LastError then reports the context error by design)"]),
